@@ -691,3 +691,88 @@ def ranges_from_sequence(u: Unit):
                         goals.append(z3.And(z_int(s.lo.v) == be[0], z_int(s.hi.v) == be[1], zb(isinstance(s.step, VNone))) if isinstance(s.lo, VInt) and isinstance(s.hi, VInt) else z3.BoolVal(False))
                 u.oblige(p, f"ranges.from_sequence.positions{tag}", z3.And(*goals), {"length": n}, SEQ_REPLAY)
             u.cover(f"ranges.from_sequence.cover{tag}", ps, lambda p: True)
+
+
+# ---- fit ranges with OPEN bounds (an omitted result_fit_range is the open range over the whole simulated frame) ---------------------------
+OPEN_REPLAY = lambda w: {"code": """
+from pyxel.calibration.util import FitRange2D, FitRange3D, check_fit_ranges
+VIOLATED, DETAIL = False, 'an explicit target range is never accepted together with an open (omitted) result range: the frame it selects is the detector, whose size the check does not know'
+rows, cols, times = 6, 5, 4              # size of the TARGET file; the simulated frame may have any other size
+cases = [(FitRange2D(slice(0, 1), slice(0, 5)), FitRange3D(slice(None), slice(None), slice(None)), {}),
+         (FitRange2D(slice(0, 6), slice(0, 5)), FitRange3D(slice(None), slice(None), slice(None)), {}),            # covers the whole target
+         (FitRange2D(slice(2, 6), slice(0, 5)), FitRange2D(slice(None), slice(None)), {}),
+         (FitRange3D(slice(0, 4), slice(0, 6), slice(0, 5)), FitRange3D(slice(None), slice(None), slice(None)), {'readout_times': times}),
+         (FitRange3D(slice(0, 4), slice(0, 6), slice(0, 5)), FitRange3D(slice(0, 4), slice(None), slice(0, 5)), {'readout_times': times}),
+         (FitRange2D(slice(0, 6), slice(0, 5)), FitRange2D(slice(0, 6), slice(None)), {})]
+for t, o, extra in cases:
+    try:
+        check_fit_ranges(target_fit_range=t, out_fit_range=o, rows=rows, cols=cols, **extra)
+        VIOLATED, DETAIL = True, f'accepted target {t} with result {o}: the open axis of the result selects the whole detector axis, which need not have the extent of the target range'
+        break
+    except Exception:
+        pass
+if not VIOLATED:
+    # explicit bounds with an omitted START (start = 0) are ordinary ranges
+    check_fit_ranges(target_fit_range=FitRange2D(slice(None, 3), slice(0, 5)), out_fit_range=FitRange3D(slice(None), slice(2, 5), slice(None, 5)), rows=rows, cols=cols)
+    try:
+        check_fit_ranges(target_fit_range=FitRange2D(slice(None, 3), slice(0, 5)), out_fit_range=FitRange2D(slice(None, 4), slice(0, 5)), rows=rows, cols=cols)
+        VIOLATED, DETAIL = True, 'accepted ranges [:3] and [:4] of different extent'
+    except ValueError:
+        pass
+""", "expect": "accepted pairs select regions of equal extent; an open result axis against an explicit target axis is refused"}
+
+
+@unit("C11", "ranges.open")
+def ranges_open(u: Unit):
+    """check_fit_ranges with bounds left open. A bound that is None means: start -> 0, stop -> the full length of the axis of the array the
+    range is applied to (the TARGET file for the target range, the simulated DETECTOR frame for the result range — a size the check is
+    not told: arbitrary symbols det_rows / det_cols / det_times). Obligation: whenever the pair is ACCEPTED, the two ranges select
+    regions of equal extent on every shared axis and the target range lies inside the target file. Modes per range: every bound explicit
+    (unit `ranges`), starts omitted, fully open. Nothing is demanded of the KIND of refusal here."""
+    fi = u.fn(f"{UTIL}::check_fit_ranges")
+    u.fn(f"{UTIL}::_slice_extent")
+    rows, cols, times = z3.Int("rows"), z3.Int("cols"), z3.Int("times")
+    det = {"row": z3.Int("det_rows"), "col": z3.Int("det_cols"), "time": z3.Int("det_times")}
+    tgt = {"row": rows, "col": cols, "time": times}
+
+    def mk(ex, dims, prefix, mode):
+        cname = "FitRange3D" if dims == 3 else "FitRange2D"
+        ci = u.cls(f"{UTIL}::{cname}")
+        kw = {}
+        for ax in (["time"] if dims == 3 else []) + ["row", "col"]:
+            lo, hi = z3.Int(f"{prefix}_{ax}_start"), z3.Int(f"{prefix}_{ax}_stop")
+            ex.st.assume(z3.And(lo >= 0, lo <= hi))
+            kw[ax] = VSlice(VInt(lo), VInt(hi), NONE) if mode == "explicit" else VSlice(NONE, VInt(hi), NONE) if mode == "no start" else VSlice(NONE, NONE, NONE)
+        return ex.instantiate(ci, [], kw, Frame(None, ci.module))
+
+    def extent(prefix, ax, mode, full):
+        hi, lo = z3.Int(f"{prefix}_{ax}_stop"), z3.Int(f"{prefix}_{ax}_start")
+        return hi - lo if mode == "explicit" else hi if mode == "no start" else full[ax]
+    for td in (2, 3):
+        for od in (2, 3):
+            for tm in ("explicit", "no start", "open"):
+                for om in ("explicit", "no start", "open"):
+                    if tm == om == "explicit":
+                        continue
+
+                    def setup(ex, td=td, od=od, tm=tm, om=om):
+                        ex.st.assume(z3.And(rows > 0, cols > 0, times > 0, det["row"] > 0, det["col"] > 0, det["time"] > 0))
+                        t, o = mk(ex, td, "t", tm), mk(ex, od, "o", om)
+                        kw = {"target_fit_range": t, "out_fit_range": o, "rows": VInt(rows), "cols": VInt(cols)}
+                        if td == 3:
+                            kw["readout_times"] = VInt(times)
+                        return [], kw
+                    tag = f"[{td}D {tm},{od}D {om}]"
+                    ps = u.paths(fi, setup, Cfg("real"), label=f"check_fit_ranges{tag}")
+                    shared = ["row", "col"] + (["time"] if td == 3 and od == 3 else [])
+                    n_acc = 0
+                    for p in ps:
+                        if p.kind != "return":
+                            continue
+                        n_acc += 1
+                        w = {"rows": rows, "cols": cols, "times": times, "det_rows": det["row"], "det_cols": det["col"]}
+                        u.oblige(p, f"ranges.open.accept_implies_equal_extent{tag}", z3.And(*[extent("t", a, tm, tgt) == extent("o", a, om, det) for a in shared]), w, OPEN_REPLAY)
+                        if tm != "open":
+                            inside = [z3.Int("t_row_stop") <= rows, z3.Int("t_col_stop") <= cols] + ([z3.Int("t_time_stop") <= times] if td == 3 else [])
+                            u.oblige(p, f"ranges.open.accept_implies_inside_target{tag}", z3.And(*inside), w, OPEN_REPLAY)
+                    u.static(f"ranges.open.explored{tag}", len(ps) >= 1, fi.qualname, f"{len(ps)} paths, {n_acc} accepting")
